@@ -61,13 +61,29 @@ def main(ctx, replay=None):
             S = full21 if ci == -1 else cand[ci]
             nrows = int(rng.integers(1, 4))
             rows = [tensors[r] for r in rng.permutation(3)[:nrows]]
+            zero_row = False
+            if nrows >= 2 and rng.random() < 0.4:
+                # a symmetry-allowed component that is exactly zero at one volume and not at the others (e.g. a sign change under
+                # compression): the combination below is still an invariant tensor (the subspace is linear)
+                n0 = int(rng.choice(sorted(nonvan))) - 1
+                a, b = rows[0], tensors[[r for r in range(3) if tensors[r] is not rows[0]][0]]
+                if a[n0] != 0 and b[n0] != 0:
+                    rows[1] = [x * b[n0] - y * a[n0] for x, y in zip(a, b)]
+                    zero_row = True
             with_zero_col = ci != -1 and rng.random() < 0.3 and len(e["vanishing"]) > 0
             cols = sorted(S)
             if with_zero_col:
                 cols = cols + [int(rng.choice(sorted(e["vanishing"])))]
             df = pandas.DataFrame({SYMS[n - 1]: [float(r[n - 1]) for r in rows] for n in cols})
             df = df[list(rng.permutation(df.columns))]
-            case = {"system": s, "supplied": [SYMS[n - 1] for n in cols], "rows": nrows}
+            index_kind = str(rng.choice(["default", "default", "offset", "shuffled", "float"]))
+            if index_kind == "offset":
+                df.index = [10 + 5 * i for i in range(nrows)]
+            elif index_kind == "shuffled":
+                df.index = [int(i) for i in rng.permutation(nrows)]
+            elif index_kind == "float":
+                df.index = [100.5 - 7.25 * i for i in range(nrows)]
+            case = {"system": s, "supplied": [SYMS[n - 1] for n in cols], "rows": nrows, "index": index_kind, "zero_row": zero_row}
             ctx.count(case, nontrivial=set(S) != nonvan)
             sig = {"system": s}
             try:
